@@ -11,8 +11,8 @@ REPLAY = os.path.join(VERIF, 'replay')
 PROP_ORACLES = {
     'C01': ['tree.memory', 'tree.altroot', 'tree.overlay', 'tree.physical', 'union.overlay'],
     'C03': ['tree.memory', 'tree.altroot', 'tree.overlay', 'union.overlay'],
-    'C04': ['reader', 'writer', 'tree.memory', 'tree.physical', 'union.overlay', 'transfer'],
-    'C05': ['tree.memory', 'tree.altroot', 'tree.overlay', 'tree.physical', 'union.overlay'],
+    'C04': ['reader', 'writer', 'tree.memory', 'tree.physical', 'union.overlay', 'transfer', 'handles'],
+    'C05': ['tree.memory', 'tree.altroot', 'tree.overlay', 'tree.physical', 'union.overlay', 'hostile.physical'],
     'C06': ['paths'],
     'C07': ['tree.altroot', 'composite.altroot', 'tree.physical', 'transfer'],
     'C08': ['overlay', 'faults'],
@@ -20,17 +20,17 @@ PROP_ORACLES = {
     'C10': ['overlay', 'union.overlay'],
     'C11': ['composite.memory', 'composite.altroot', 'composite.physical', 'transfer', 'copydir'],
     'C12': ['paths', 'tree.memory', 'tree.altroot'],
-    'C13': ['paths', 'reader', 'writer', 'tree.memory', 'tree.altroot', 'tree.overlay', 'tree.physical', 'union.overlay', 'overlay', 'transfer'],
+    'C13': ['paths', 'reader', 'writer', 'tree.memory', 'tree.altroot', 'tree.overlay', 'tree.physical', 'union.overlay', 'overlay', 'transfer', 'handles', 'hostile.physical', 'times'],
     'C14': ['reader', 'writer'],
     'C18': [],
-    'C19': [],
+    'C19': ['times'],
     'C20': ['faults', 'composite.memory', 'transfer', 'copydir'],
 }
 BOUNDS = {
     'paths': 'all join arguments over {/ . a é} up to length 5 (deep: 6) x 5 bases, plus parent/filename/extension/root of every result',
     'reader': 'contents of length 0,1,3 x all scripts of 2 (deep: 3) read/seek calls from 17 operations incl. extreme offsets',
     'writer': 'create/append sessions x all scripts of 3 (deep: 4) write/seek/flush calls from 9 operations',
-    'tree.memory': 'all sequences of 2 (deep: 3) primitive operations over the 10-path universe (incl. prefix siblings a/ab/a.b, a multi-byte directory with a child, a dot-file, a name containing a backslash) on MemoryFS, every observation compared with the abstract tree after every step',
+    'tree.memory': 'all sequences of 2 (deep: 3) operations (5 primitives plus move_file / copy_file to a fixed destination) over the 11-path universe (incl. prefix siblings a/ab/a.b, a multi-byte directory with a child, a dot-file, a name containing a backslash) on MemoryFS, every observation compared with the abstract tree after every step',
     'tree.altroot': 'same sequences on AltrootFS over MemoryFS rooted at /r, plus: nothing outside /r changes',
     'tree.overlay': 'same sequences (length 2) on OverlayFS over two MemoryFS layers with an empty lower layer',
     'composite.memory': 'sequences of 2 operations incl. create_dir_all / remove_dir_all on MemoryFS',
@@ -41,6 +41,9 @@ BOUNDS = {
     'overlay': 'all sequences of 1 (deep: 2) overlay operations (13 kinds x 5 paths) over 2 and 3 layers with pre-populated lower layers: lower layers unchanged, observers change nothing, bookkeeping hidden',
     'copydir': 'copy_dir / move_dir of 3 source trees (incl. names repeating the source directory name, empty and nested directories, binary and dot files) x same/other filesystem x existing destination: structure, bytes and returned count',
     'faults': '11 scenarios (create_dir_all, remove_dir_all, copy/move_file, copy/move_dir, walk_dir, read_to_string, altroot, overlay with faulty upper / faulty lower layer) x every position k of a failing underlying call: never Ok with a partial or wrong effect, never a panic, lower layers untouched',
+    'times': 'set_creation/modification/access_time: 3 fields x 3 fields (ordered pairs) x 7 instants (epoch, sub-second, before the epoch, far future) on a file, a directory and the root, on memory, altroot, overlay (upper-layer entries), physical and altroot over physical; plus append sessions (creation time kept, also when set while the handle is open)',
+    'handles': '6 scenarios of read / write handles that outlive their file (removed, ancestor removed, re-created) on memory, altroot, overlay: no panic, filesystem usable afterwards',
+    'hostile.physical': '14 operations on every entry of a directory holding a dangling symlink, symlinks to a directory and to a file and a non-UTF-8 name: no panic; metadata type agrees with listability',
     'transfer': 'copy_file / move_file over 4 contents (empty, 1 byte, non-UTF-8, 9000 bytes) x same/other filesystem x altroot source x existing destination',
 }
 
